@@ -77,6 +77,12 @@ def body(run):
     for k in range(n):
         aligned = k % 2 == 0
         g = synth.aligned_geom(rng, max_src=run.scale(40, 60)) if aligned else synth.random_geom(rng, max_src=run.scale(40, 60))
+        if k % 10 == 7:
+            # equal resolutions on grids offset by a fraction of a pixel: the parameters reach the source grid through the DOWN-sampling kernel
+            # (average: a 2 x 2 footprint) whatever the up-sampling option says
+            sh_ = (rng.randint(24, 40), rng.randint(24, 40))
+            off_ = (rng.randint(1, 3) + rng.choice([0.3, 0.6, 0.25]), rng.randint(1, 3) + rng.choice([0.3, 0.6, 0.75]))
+            g = synth.Geom(rng.choice([1.0, 0.5, 10.0]), 1, *rng.choice([(16.0, 48.0), (300000.0, 6200000.0)]), (sh_[0] + 6, sh_[1] + 6), off_, sh_)
         model = ['gain', 'gain-offset'][(k // 2) % 2]
         kshape = rng.choice([(1, 1), (3, 3), (1, 3), (5, 3), (3, 5), (5, 5), (7, 3)])
         if model == 'gain-offset' and kshape == (1, 1):
@@ -145,7 +151,7 @@ def body(run):
             elif reach.shape == a.shape[1:]:
                 bad_px &= ~reach[None]
         if bad_px.any():
-            if ups in ('bilinear', 'nearest', 'average') or one['proc_crs'] == 'src' or ratio <= 1.0:
+            if ups in ('bilinear', 'nearest', 'average') or one['proc_crs'] == 'src' or ratio < 1.0 or (ratio == 1.0 and k % 10 == 7):
                 problems['corrected image'] = fz.first_diff(np.where(bad_px, a, 0), np.where(bad_px, b, 0))
             else:
                 lim = math.ceil(ratio) + 1
